@@ -20,7 +20,7 @@ RULE = (
     "non-trivial = at least one non-zero amplitude"
 )
 ASSUMPTIONS = [
-    "'to first order' is decided at eps = 1e-4 and 1e-5 with the bound |H_code - H_true| <= 2000*eps^2/R (= 0.02*eps/R at 1e-5) and |V_approx - V| <= 50 eps^2 R^3",
+    "'to first order' is decided at eps = 1e-4 and 1e-5 with the bound |H_code - H_true| <= K*eps^2/R, K = 2000*max(1,(degree/4)^4) (= 0.02*eps/R at 1e-5 up to degree 4) and |V_approx - V| <= 50 eps^2 R^3",
     "true curvature from the fundamental forms of the own surface parametrisation (4th-order differences, step 1e-3 rad)",
     "volume/surface integrals only where the class implements the quantity (2-D volume & surface, 3-D volume, volume_approx)",
 ]
@@ -51,11 +51,14 @@ def blocks(tier, seed):
         out.append({"cls": cls, "n": n, "R": RADII[(seed + n + 1) % 3], "centre": "generic", "tier": tier, "mode": "integral"})
     for cls in ("2d", "3d", "axisym"):
         out.append({"cls": cls, "mode": "mutation", "n": {"2d": 4, "3d": 8, "axisym": 3}[cls], "tier": tier})
-    for cls, n in (("2d", 8), ("3d", 24), ("axisym", 4)):
+    big = (("2d", 8), ("3d", 24), ("axisym", 4)) if tier != "thorough" else (("2d", 8), ("2d", 12), ("3d", 24), ("3d", 35), ("axisym", 4), ("axisym", 6))
+    for cls, n in big:
         for R in RADII:
             for ci, centre in enumerate(("origin", "generic")):
                 out.append({"cls": cls, "n": n, "R": R, "centre": centre, "tier": tier, "mode": "first-order"})
-        out.append({"cls": cls, "n": n if cls != "3d" else 8, "R": [1.0, 0.5, 3.0][seed % 3], "centre": "generic", "tier": tier, "mode": "integral"})
+        blk = {"cls": cls, "n": n if cls != "3d" else 8, "R": [1.0, 0.5, 3.0][seed % 3], "centre": "generic", "tier": tier, "mode": "integral"}
+        if blk not in out:
+            out.append(blk)
     return out
 
 
@@ -323,7 +326,11 @@ def run_case(case, ctx):
         err = float(np.max(np.abs(np.asarray(Hc) - Ht)))
         # first order: the error must be O(eps^2); K = 2000 bounds the second-order term of all modes up to degree 4
         # (measured <= 250 for the correct linearisation), i.e. 0.2*eps/R at eps = 1e-4 and 0.02*eps/R at eps = 1e-5
-        ctx.check("C13.curvature-1st", err <= 2000 * eps * eps / R + 1e-9 / R, {"max_err_times_R_over_eps": err * R / eps, "bound": 2000 * eps}, tags)
+        # the second-order term grows like degree^4: scale K for patterns that populate degrees above 4 (thorough tier)
+        idx_max = max((i for i, _ in case["pattern"]), default=0)
+        deg = {"2d": idx_max // 2 + 1, "axisym": idx_max + 1}.get(cls) or int(math.floor(math.sqrt(idx_max + 1)))
+        K = 2000 * max(1.0, (deg / 4.0) ** 4)
+        ctx.check("C13.curvature-1st", err <= K * eps * eps / R + 1e-9 / R, {"max_err_times_R_over_eps": err * R / eps, "bound": K * eps, "highest_degree": deg}, tags)
         if cls in ("3d", "axisym"):
             Va = drop.volume_approx
             Vx = volume_3d(cls, R, amps)
